@@ -99,6 +99,10 @@ func (h accountsResourceHandler) ResolveFilter(opts common.ResourceQuery[any], o
 			selectBalance = selectBalance.Where("asset = ?", balanceRegex.FindAllStringSubmatch(property, 2)[0][1])
 		}
 
+		if operator == queries.OperatorExists {
+			return "", nil, common.NewErrInvalidQuery("operator '%s' is not supported for property '%s'", operator, property)
+		}
+
 		return h.store.db.NewSelect().
 			TableExpr("(?) balance", selectBalance).
 			ColumnExpr(fmt.Sprintf("balance %s ?", common.ConvertOperatorToSQL(operator)), value).
